@@ -4,7 +4,6 @@ package collector
 
 import (
 	"bytes"
-	"net"
 	"sort"
 	"time"
 
@@ -86,21 +85,6 @@ func (cp *CollectingProcess) VerifEmptyDomains() int {
 		}
 	}
 	return n
-}
-
-// VerifServeConn runs the real TCP client handler on a connection, with the
-// same WaitGroup accounting as the accept loop.
-func (cp *CollectingProcess) VerifServeConn(conn net.Conn) {
-	cp.wg.Add(1)
-	go func() {
-		defer cp.wg.Done()
-		cp.handleTCPClient(conn)
-	}()
-}
-
-// VerifServeDatagram forwards to handleUDPMessage.
-func (cp *CollectingProcess) VerifServeDatagram(address net.Addr, buf []byte) {
-	cp.handleUDPMessage(address, buf)
 }
 
 // VerifClients lists the client table keys.
